@@ -267,6 +267,21 @@ func (w *World) SelectChoose(site string, ready func() []int) int {
 	return r[w.T.Choose(len(r), fmt.Sprintf("select%v", r))]
 }
 
+// MapStart chooses where a walk over a map's sorted keys starts (see
+// simhook.MapKeys).
+func (w *World) MapStart(site string, n int) int {
+	if w.FS.Sched == nil {
+		return 0
+	}
+	w.mu.Lock()
+	free := w.free
+	w.mu.Unlock()
+	if free || !w.Sched.OwnsTape() {
+		return 0
+	}
+	return w.T.Choose(n, "map-walk-start")
+}
+
 // LoopTick is the deterministic livelock detector: more than SpinLimit
 // iterations of one loop site at one virtual instant means the loop neither
 // blocks nor lets time pass.  The goroutine is then parked for good so the run
